@@ -74,32 +74,51 @@ func (x *clExec) close() {
 	}
 }
 
-func runCL(c clCase, o *vfutil.Obs, hook func(x *clExec, op clOp) (*vfutil.Failure, bool)) (f *vfutil.Failure) {
-	x := &clExec{c: c, o: o, dir: vfutil.TempDir("cl"), b: newCLBuilder(), maxSeg: c.MaxSeg, workers: c.Workers, lastCleanHW: -2}
+// newCLExec opens a fresh log in dir and checks the initial state.
+func newCLExec(c clCase, o *vfutil.Obs, dir string) (*clExec, *vfutil.Failure) {
+	x := &clExec{c: c, o: o, dir: dir, b: newCLBuilder(), maxSeg: c.MaxSeg, workers: c.Workers, lastCleanHW: -2}
 	x.m = newCLModel(c.MaxSeg)
 	x.maxEpoch = 1
-	defer os.RemoveAll(x.dir)
-	defer x.close()
 	if f := x.open(); f != nil {
-		return f
+		return nil, f
 	}
 	if f := x.verify("initial"); f != nil {
+		x.close()
+		return nil, f
+	}
+	return x, nil
+}
+
+// doOp applies one operation and verifies the whole state against the model.
+func (x *clExec) doOp(i int, op clOp, hook func(x *clExec, op clOp) (*vfutil.Failure, bool)) *vfutil.Failure {
+	x.step = i
+	var f *vfutil.Failure
+	handled := false
+	if hook != nil {
+		f, handled = hook(x, op)
+	}
+	if !handled {
+		f = x.apply(op)
+	}
+	if f != nil {
 		return f
 	}
+	return x.verify(fmt.Sprintf("after step %d (%s)", i, op.Op))
+}
+
+func runCL(c clCase, o *vfutil.Obs, hook func(x *clExec, op clOp) (*vfutil.Failure, bool)) (f *vfutil.Failure) {
+	dir := vfutil.TempDir("cl")
+	defer os.RemoveAll(dir)
+	x, f := newCLExec(c, o, dir)
+	if f != nil {
+		return f
+	}
+	defer x.close()
+	if hook != nil {
+		hook(x, clOp{Op: "init"})
+	}
 	for i, op := range c.Ops {
-		x.step = i
-		var f *vfutil.Failure
-		handled := false
-		if hook != nil {
-			f, handled = hook(x, op)
-		}
-		if !handled {
-			f = x.apply(op)
-		}
-		if f != nil {
-			return f
-		}
-		if f := x.verify(fmt.Sprintf("after step %d (%s)", i, op.Op)); f != nil {
+		if f := x.doOp(i, op, hook); f != nil {
 			return f
 		}
 	}
